@@ -363,6 +363,132 @@ def r18f(ctx):
     recursive_options(ctx, "R18f")
 
 
+def r18g(ctx):
+    m = ctx.model
+    ctx.rule("R18g", "json.build_tree: every branch that returns a leaf node precedes the `force_leaf_node` refusal (the branch "
+                     "used for mapping keys), so every value the builders of graphtage.builder accept as a key - including "
+                     "None - is accepted here too")
+    f, obj, jt = json_table(m)
+    refusal = None
+
+    def walk(stmts):
+        nonlocal refusal
+        for s_ in stmts:
+            if isinstance(s_, ast.If):
+                if isinstance(s_.test, ast.Name) and s_.test.id == "force_leaf_node" and any(isinstance(x, ast.Raise) for x in s_.body):
+                    refusal = s_
+                walk(s_.orelse)
+    walk(f.node.body)
+    if refusal is None:
+        ctx.proved("R18g", f.file, "build_tree", f.node, "leaf branches before the refusal", "no force_leaf_node refusal", nontrivial=False)
+        return
+    leaf = m.need_class("LeafNode")
+    late = [(types, cls, node) for types, cls, _, node in jt if cls and m.find_class(cls) and m.is_subclass(m.find_class(cls), leaf)
+            and node.lineno > refusal.lineno]
+    if late:
+        for types, cls, node in late:
+            ctx.violation("R18g", f.file, "build_tree", node, f"{cls} branch after the refusal",
+                          f"the `{'/'.join(types)}` branch (-> {cls}) comes after `elif force_leaf_node: raise ValueError`, so that value "
+                          f"is refused as a mapping key: {{None: 1}} (YAML `~: 1`) raises ValueError here while BasicBuilder and "
+                          f"pydiff.build_tree build {{NullNode(): 1}}")
+    else:
+        ctx.proved("R18g", f.file, "build_tree", refusal, "leaf branches before the refusal", "all leaf-returning branches are tested first")
+
+
+def r18h(ctx):
+    m = ctx.model
+    ctx.rule("R18h", "node identity is structural: (1) every concrete node class resolves __eq__ and __hash__ to project-defined "
+                     "methods (object's identity comparison makes a tree unequal to its own copy); (2) those methods do not compare "
+                     "with `is` or id() on the node's payload (a payload wrapper is allocated per node, so two trees built from the "
+                     "same object would differ)")
+    TREE = "graphtage.tree.TreeNode"
+    n = 0
+    for q in sorted(m.subclasses(TREE)):
+        if m.is_abstract(q) or m.is_subclass(q, "graphtage.tree.EditedTreeNode") or q == TREE:
+            continue
+        n += 1
+        short = q.rsplit(".", 1)[-1]
+        eq, hs = m.method(q, "__eq__"), m.method(q, "__hash__")
+        mod, node = m.classes[q]
+        if eq is None or hs is None:
+            ctx.violation("R18h", m.files[mod], short, node, f"{short} equality",
+                          f"{short} defines {'no __eq__' if eq is None else ''}{' and ' if eq is None and hs is None else ''}"
+                          f"{'no __hash__' if hs is None else ''} (nor does any base class): nodes are compared by identity, so a tree "
+                          f"containing a {short} is never equal to its copy or to a second tree built from the same input")
+            continue
+        bad = []
+        for fn in (eq, hs):
+            if fn.cls != q:
+                continue
+            for x in walk_no_nested(fn.node):
+                if isinstance(x, ast.Compare) and any(isinstance(o, (ast.Is, ast.IsNot)) for o in x.ops) \
+                        and any(".object" in ast.unparse(y) for y in [x.left] + x.comparators):
+                    bad.append((fn, x))
+                if isinstance(x, ast.Call) and call_name(x) == "id" and x.args and ".object" in ast.unparse(x.args[0]):
+                    bad.append((fn, x))
+        if bad:
+            fn, x = bad[0]
+            ctx.violation("R18h", fn.file, fn.short, x, f"{short} equality by payload identity",
+                          f"`{norm(x, 50)}` in {fn.short} compares the payload object by identity; the payload is a wrapper allocated "
+                          f"for each node, so two trees built from the same object (or a tree and its copy) are unequal")
+        else:
+            ctx.proved("R18h", m.files[mod], short, node, f"{short} equality", f"{eq.short} / {hs.short}", nontrivial=False)
+    ctx.floor("R18h", n, 20, "concrete node classes")
+
+
+def r18i(ctx):
+    m = ctx.model
+    ctx.rule("R18i", "hashable positions: Python dict keys and set members are hashable containers too (tuple, frozenset) and the "
+                     "builders turn them into ListNode / MultiSetNode; (1) a to_obj() that places children's values in a hashed "
+                     "position (dict key, Counter / set element) needs every node class that can sit there to read back as a "
+                     "hashable value, (2) DictNode.from_dict sorts its pairs through KeyValuePairNode.__lt__ -> key < key, so every "
+                     "node class that can be a key needs an ordering")
+    # which node classes can be keys / set members: what the builder makes of the hashable container types
+    bt = builder_table(m)
+    hashable_sources = {t: bt[t][0] for t in ("tuple", "frozenset") if t in bt}
+    n = 0
+    for t, cls in sorted(hashable_sources.items()):
+        q = m.find_class(cls)
+        if q is None:
+            continue
+        n += 1
+        to = m.method(q, "to_obj")
+        rets = [r for r in walk_no_nested(to.node) if isinstance(r, ast.Return) and r.value is not None]
+        unhash = [r for r in rets if isinstance(r.value, (ast.List, ast.ListComp, ast.Dict, ast.DictComp, ast.Set, ast.SetComp))
+                  or (isinstance(r.value, ast.Call) and call_name(r.value) in ("list", "dict", "set"))]
+        hashed_sites = []
+        for k in sorted(m.subclasses("graphtage.tree.ContainerNode")):
+            own = m.attrs[k].get("to_obj")
+            if not own or own[0] != "def":
+                continue
+            for x in walk_no_nested(own[1].node):
+                if isinstance(x, ast.DictComp) and isinstance(x.key, ast.Call) and isinstance(x.key.func, ast.Attribute) and x.key.func.attr == "to_obj":
+                    hashed_sites.append((own[1], x, "dict key"))
+                if isinstance(x, ast.Call) and (call_name(x) or "").rsplit(".", 1)[-1] in ("HashableCounter", "Counter", "set", "frozenset") \
+                        and x.args and isinstance(x.args[0], ast.GeneratorExp) and "to_obj()" in ast.unparse(x.args[0].elt):
+                    hashed_sites.append((own[1], x, "multiset element"))
+        if unhash and hashed_sites:
+            site = hashed_sites[0]
+            ctx.violation("R18i", to.file, f"{cls}.to_obj", unhash[0], f"{cls}.to_obj unhashable in hashed positions",
+                          f"a Python {t} becomes a {cls}, whose to_obj() returns `{norm(unhash[0].value, 40)}` (unhashable); "
+                          f"{site[0].short} puts children's to_obj() values in a {site[2]} (`{norm(site[1], 50)}`, {len(hashed_sites)} such "
+                          f"site(s)): to_obj() of {{(1, 2)}} or {{(1, 2): 3}} raises TypeError: unhashable type although building and "
+                          f"copying the tree succeed")
+        else:
+            ctx.proved("R18i", to.file, f"{cls}.to_obj", to.node, f"{cls}.to_obj unhashable in hashed positions", "reads back as a hashable value (or is never hashed)")
+        if m.method(q, "__lt__") is None:
+            fd = m.method(m.need_class("DictNode"), "from_dict")
+            srt = next((c for c in walk_no_nested(fd.node) if isinstance(c, ast.Call) and call_name(c) == "sorted"), None)
+            if srt is not None:
+                ctx.violation("R18i", fd.file, "DictNode.from_dict", srt, f"{cls} keys cannot be sorted",
+                              f"DictNode.from_dict sorts its pairs (`{norm(srt, 50)}`), KeyValuePairNode.__lt__ compares the keys, and "
+                              f"{cls} (what a Python {t} key becomes) defines no __lt__: a dict with two {t} keys raises TypeError: '<' not "
+                              f"supported under the default dictionary strategy, while allow_key_edits=False (no sorting) builds it")
+        else:
+            ctx.proved("R18i", m.files[m.classes[q][0]], cls, None, f"{cls} keys cannot be sorted", f"{cls} defines __lt__")
+    ctx.floor("R18i", n, 2, "hashable container types handled by the builder")
+
+
 def run(ctx):
     r18a(ctx)
     r18b(ctx)
@@ -370,5 +496,8 @@ def run(ctx):
     r18d(ctx)
     r18e(ctx)
     r18f(ctx)
+    r18g(ctx)
+    r18h(ctx)
+    r18i(ctx)
     ctx.assume("equality of round-tripped values (floats, big ints, str subclasses) is a statement about values and is "
                "not decided beyond the structural clauses")
